@@ -3,7 +3,7 @@
 (* (two affiliates, purchases, sales at a gain and at a loss, gaps around the 30-day window    *)
 (* and a long gap), every summary date (each settlement date of the history) and both modes,  *)
 (* TLC compares the ledger of the full history with the ledger of (summary rows + later rows). *)
-EXTENDS MCLedger
+EXTENDS MCLedger, Dates
 Rank(a) == CASE a = "default" -> 1 [] a = "default (R)" -> 2 [] a = "kid" -> 3 [] a = "spouse" -> 4 [] a = "spouse (R)" -> 5 [] OTHER -> 9
 CONSTANTS LossSales, Shareless
 Sm == INSTANCE Summary WITH IdLess <- LAMBDA a, b : Rank(a) < Rank(b), LossSalesToo <- LossSales, CarryShareless <- Shareless
@@ -21,8 +21,17 @@ Complete == phase = "done" /\ i > Len(R)          \* processed to the end: an er
 InvRoundTripSimple == Complete => \A cut \in CutDays : Sm!RoundTrip(R, REG, StartState, AFS, cut, FALSE)
 InvRoundTripAnnual == Complete => \A cut \in CutDays : Sm!RoundTrip(R, REG, StartState, AFS, cut, TRUE)
 Brief == [n \in DOMAIN hist |-> <<hist[n].t.act, hist[n].t.afc, hist[n].t.q[1], hist[n].t.p[1], hist[n].sd - BaseDay>>]
-\* reporting variant: prints every (history, date, mode) that fails and goes on
+\* reporting variant for configurations in which the recorded, unrepaired defect of the annual mode can
+\* show (histories starting in January): a failure is printed as known when the replay contains a
+\* synthetic 'gain summary' sale (dated Jan 1) that was made superficial, and as a failure otherwise
+SyntheticSfl(cut) ==
+  LET D == Sm!Deltas(R, REG, StartState)
+      D2 == Sm!Deltas(Prepare(Sm!Replacement(R, D, REG, cut, TRUE), FALSE), REG, InitState(AFS))
+  IN  \E n \in DOMAIN D2 : D2[n].sd <= cut /\ D2[n].row.act = "Sell" /\ D2[n].superficial
+                            /\ D2[n].sd = FirstDayOfYear(YearOf(D2[n].sd))
 ReportRoundTrip ==
   Complete => \A cut \in CutDays, annual \in BOOLEAN :
-     Sm!RoundTrip(R, REG, StartState, AFS, cut, annual) \/ PrintT("@@RTFAIL " \o ToJson([hist |-> Brief, cut |-> cut - BaseDay, annual |-> annual]))
+     Sm!RoundTrip(R, REG, StartState, AFS, cut, annual)
+     \/ PrintT((IF annual /\ SyntheticSfl(cut) THEN "@@RTKNOWN " ELSE "@@RTFAIL ")
+                \o ToJson([hist |-> Brief, cut |-> cut - BaseDay, annual |-> annual]))
 =============================================================================
